@@ -43,6 +43,9 @@ DOCS = [
     ("A: 1", False),
     ("Section: x\nSHA256: y\npackage: p\nSize: 1\nPackage: q\n", True),   # mixed case, duplicated with different spelling
     ("b: 1\nC: 2\nA: 3\nc-d: 4\n", False),                               # case-insensitive order differs from code-point order
+    ("A: 1\nB:", False),                                                  # unterminated, last value empty
+    ("A: 1\nB: 2\n\nC: x\nD: ", False),                                  # unterminated, last value blank
+    ("A: 1\n\n# free 1\n\nB: 2\n\n# free 2\n\nC: 3\n", False),          # three paragraphs, two free comments
 ]
 
 
